@@ -37,6 +37,66 @@ func mirrorOK(c *Client) bool {
 //@   ensures state != imap.ConnStateSelected ==> c.mailbox == nil
 //@   ensures state == imap.ConnStateSelected ==> c.mailbox == old(c.mailbox)
 
+// changesState: the commands whose successful completion moves the connection
+// to another state (RFC 9051 section 3). STARTTLS is not one of them: the
+// state after the TLS handshake is the state before it, so a PREAUTH greeting
+// stays visible to NewStartTLS.
+//
+//@ pure
+func changesState(cmd command) bool {
+	switch cmd.(type) {
+	case *authenticateCommand, *loginCommand, *unauthenticateCommand, *SelectCommand, *unselectCommand, *logoutCommand:
+		return true
+	}
+	return false
+}
+
+//@ pure
+func isAuthCmd(cmd command) bool {
+	switch cmd.(type) {
+	case *authenticateCommand, *loginCommand, *unselectCommand:
+		return true
+	}
+	return false
+}
+
+//@ pure
+func isUnauthCmd(cmd command) bool {
+	_, ok := cmd.(*unauthenticateCommand)
+	return ok
+}
+
+//@ pure
+func isLogoutCmd(cmd command) bool {
+	_, ok := cmd.(*logoutCommand)
+	return ok
+}
+
+//@ pure
+func isSelectCmd(cmd command) bool {
+	_, ok := cmd.(*SelectCommand)
+	return ok
+}
+
+//@ pure
+func selName(cmd command) string {
+	if s, ok := cmd.(*SelectCommand); ok {
+		return s.mailbox
+	}
+	return ""
+}
+
+// completeCommand performs exactly the state transition of the completed
+// command: none on failure, none for commands that do not change the state.
+//
+//@ func (c *Client) completeCommand(cmd command, err error)
+//@   props C12:post,pre@call C17:post,pre@call
+//@   ensures err != nil || !changesState(cmd) ==> c.state == old(c.state) && c.mailbox == old(c.mailbox)
+//@   ensures err == nil && isAuthCmd(cmd) ==> c.state == imap.ConnStateAuthenticated && c.mailbox == nil
+//@   ensures err == nil && isUnauthCmd(cmd) ==> c.state == imap.ConnStateNotAuthenticated && c.mailbox == nil
+//@   ensures err == nil && isLogoutCmd(cmd) ==> c.state == imap.ConnStateLogout && c.mailbox == nil
+//@   ensures err == nil && isSelectCmd(cmd) ==> c.state == imap.ConnStateSelected && c.mailbox != nil && c.mailbox.Name == old(selName(cmd))
+
 // A unilateral EXISTS updates the message count of the summary and nothing else.
 //
 //@ func (c *Client) handleExists(num uint32) (err error)
